@@ -59,6 +59,43 @@ type snapshot struct {
 	control  map[peer.ID]bool
 	gossip   map[peer.ID]bool
 	penalty  map[peer.ID]float64
+	recvMark map[int]int // per scripted peer: number of frames received so far
+	rawMark  int         // number of raw trace records so far
+	stalled  map[int]bool
+	inAlive  map[int]bool
+	outAlive map[int]bool
+}
+
+// frames returns the frames scripted peer i received in the window (pre, post].
+func framesBetween(w *nodeWorld, i int, pre, post *snapshot) []wireObs {
+	fp := w.fakes[i]
+	if fp == nil {
+		return nil
+	}
+	a, b := pre.recvMark[i], post.recvMark[i]
+	if a > len(fp.recv) {
+		a = len(fp.recv)
+	}
+	if b > len(fp.recv) {
+		b = len(fp.recv)
+	}
+	if a >= b {
+		return nil
+	}
+	return fp.recv[a:b]
+}
+
+func rawBetween(w *nodeWorld, pre, post *snapshot) []rawRec {
+	w.n.mu.Lock()
+	defer w.n.mu.Unlock()
+	a, b := pre.rawMark, post.rawMark
+	if b > len(w.n.raw) {
+		b = len(w.n.raw)
+	}
+	if a >= b {
+		return nil
+	}
+	return append([]rawRec(nil), w.n.raw[a:b]...)
 }
 
 type nodeWorld struct {
@@ -293,6 +330,13 @@ func (w *nodeWorld) mkData(n int) []byte {
 // exec runs one plan item (root goroutine, at quiescence). Unknown prerequisites make the item
 // a no-op, so that shrinking can delete items freely.
 func (w *nodeWorld) exec(it Item) {
+	w.exec1(it)
+	if it.Op != "adv" {
+		w.s.run(w.s.now()) // quiesce and execute everything due at this instant (one event per step)
+	}
+}
+
+func (w *nodeWorld) exec1(it Item) {
 	s := w.s
 	switch it.Op {
 	case "adv":
@@ -584,7 +628,17 @@ func (w *nodeWorld) snapshot() *snapshot {
 		gsPeers: map[peer.ID]protocol.ID{}, direct: map[peer.ID]bool{}, backoff: map[string]map[peer.ID]time.Time{},
 		outbound: map[peer.ID]bool{}, topics: map[string]map[peer.ID]peerTopicState{}, psPeers: map[peer.ID]bool{},
 		mySubs: map[string]int{}, myRelays: map[string]int{}, scores: map[peer.ID]float64{}, lastpub: map[string]int64{},
-		unwanted: map[peer.ID]map[checksum]int{}, control: map[peer.ID]bool{}, gossip: map[peer.ID]bool{}, penalty: map[peer.ID]float64{}}
+		unwanted: map[peer.ID]map[checksum]int{}, control: map[peer.ID]bool{}, gossip: map[peer.ID]bool{}, penalty: map[peer.ID]float64{},
+		recvMark: map[int]int{}, stalled: map[int]bool{}, inAlive: map[int]bool{}, outAlive: map[int]bool{}}
+	for i, fp := range w.fakes {
+		sn.recvMark[i] = len(fp.recv)
+		sn.inAlive[i] = fp.inAlive()
+		sn.outAlive[i] = fp.outAlive()
+		sn.stalled[i] = fp.stalledNow()
+	}
+	n.mu.Lock()
+	sn.rawMark = len(n.raw)
+	n.mu.Unlock()
 	p := n.ps
 	for t, m := range p.topics {
 		c := map[peer.ID]peerTopicState{}
